@@ -51,7 +51,7 @@ CLAIMED = {
         text="Per-link RDH-only histories starting at an HBF start, with bit flips over the header, boundary values, page/stop/orbit/trigger/FEE walks and packet loss/duplication/reordering, merged over 1-8 links and run through the whole pipeline under schedules in check sanity / check all x none / its. Exact two-sided oracle: [E10] iff the documented sanity predicate fails, [E11] iff the documented running automaton flags, each at the RDH's offset; nothing else reported.",
         note="Reference predicate / automaton in itsgen::models are written from doc/checks_list.md with the tie-breaks of DESIGN.md §2.4 (detector-field bits 4..11 legal, BC 0xdeb legal)."),
     "C02": dict(level="exploration", ref="DESIGN.md §3 C02, appendix B",
-        text="Conforming multi-link streams + ONE entry of the stream-fault catalogue (55 entries: RDH sanity fields, packet loss/duplication/reordering, page/stop/orbit/trigger/FEE edits, status- and data-word IDs and reserved bits, state-dependent ITS rules, CDW index, lanes, excess padding, stave-level frames) at a seeded applicable position, run in all check modes under seeded schedules. One-sided oracle: >=1 message of the documented family at the offending RDH/word in every mode where the rule is active, exit status == -E value; purely stateful violations silent in check sanity.",
+        text="Conforming multi-link streams + ONE entry of the stream-fault catalogue (59 entries: RDH sanity fields, packet loss/duplication/reordering, page/stop/orbit/trigger/FEE edits, status- and data-word IDs and reserved bits, state-dependent ITS rules, CDW index, lanes, excess padding, stave-level frames) at a seeded applicable position, run in all check modes under seeded schedules. One-sided oracle: >=1 message of the documented family at the offending RDH/word in every mode where the rule is active, exit status == -E value; purely stateful violations silent in check sanity.",
         note="The catalogue's code/offset/mode table is DESIGN.md appendix B (doc/checks_list.md + README); cascading extra errors are allowed."),
     "C06": dict(level="exploration", ref="DESIGN.md §3 C06",
         text="Multi-link streams (conforming or with faults confined to single links): reference full run vs another merge of the same per-link sequences, the physically extracted single-link stream, a filter run, ONE single-threaded pass of the link through one real LinkValidator::run, and the stream with an extra fault on another link; messages normalised to (packet index in link, offset in packet) by the independent walker; per-link lists must be equal.",
